@@ -13,7 +13,7 @@ void cs_done(CO_CSDO *c, uint16_t i, uint8_t s, uint32_t code) { (void)c; if (g_
 void app_cb(void *p) { (void)p; }
 
 struct NodeX {
-  Ctx &c; Sim s; World w; std::vector<CO_HBCONS *> hc; uint8_t csbuf[64]; std::vector<std::string> extra;   // extra: results of API queries (mode with-queries)
+  Ctx &c; Sim s; World w; std::vector<CO_HBCONS *> hc; uint8_t csbuf[64]; bool cont_probe = false; std::vector<std::string> extra;   // extra: results of API queries (mode with-queries)
   explicit NodeX(Ctx &cx) : c(cx), s(cx), w(s) {}
   void build(const Cfg &g) {
     s.nodeid = g.nodeid;
@@ -48,7 +48,7 @@ struct NodeX {
       case 16: s.api_begin(); if (o.b % 2) COEmcySet(&s.node->Emcy, (uint8_t)(o.a % 3), 0); else COEmcyClr(&s.node->Emcy, (uint8_t)(o.a % 3)); s.api_end("COEmcy"); break;
       case 17: { static const uint16_t IDX[7] = {0x1017, 0x1005, 0x1006, 0x1001, 0x1800, 0x2100, 0x1014}; uint16_t idx = IDX[o.a % 7]; sdo(0x40, idx, idx == 0x1800 ? 5 : idx == 0x2100 ? 1 : 0, 0); break; }
       case 18: s.rx(Frame::mk(0x200u + nid, 8, {(uint8_t)o.a, (uint8_t)o.b, (uint8_t)o.c, 0, 0, 0, 0, 0})); break;
-      case 19: { uint32_t k = o.a % 3; if (!inH) { sdo(0x40, 0x1000, 0, 0); break; } if (k == 0) sdo(0x40, 0x1000, 0, 0); else if (k == 1) sdo(0xA0, 0x1018, 1, 4); else sdo(0xC0, 0x2100, 3, 0); break; }   // transfers left open (history only)
+      case 19: { uint32_t k = o.a % 3; if (!inH) { if (cont_probe && k == 1) sdo(0x60, 0, 0, 0); else if (cont_probe && k == 2) sdo(0xA2, 0, 0, 0); else sdo(0x40, 0x1000, 0, 0); break; }   /* cont_probe: a client that goes on with a transfer the reset has discarded */ if (k == 0) sdo(0x40, 0x1000, 0, 0); else if (k == 1) sdo(0xA0, 0x1018, 1, 4); else sdo(0xC0, 0x2100, 3, 0); break; }   // transfers left open (history only)
       case 20: { s.api_begin(); CO_CSDO *cl = COCSdoFind(s.node, 0); if (cl) { CO_ERR e = COCSdoRequestUpload(cl, CO_DEV(0x2000, 1), csbuf, (o.a % 2) ? 4 : 20, cs_done, 5 + o.b % 20); Event ev; ev.k = EV_CSDO; ev.tick = s.tick; ev.a = 0xEEEE0000u | (uint32_t)e; ev.b = 0; s.ev.push_back(ev); } s.api_end("COCSdoRequestUpload"); break; }
       case 21: s.rx(Frame::mk(0x580u + 0x30 + (o.a % 4 == 3 ? 1 : 0), 8, {0x43, 0x00, 0x20, 1, 1, 2, 3, 4})); break;
       case 22: { uint32_t k = o.a % 4;   // LSS: switch only / inquire only (answered only in configuration state) / configure / both
@@ -101,7 +101,7 @@ void case_impl(Ctx &c, int variant) {   // 0 random, 1 reset-from-callback, 2 wi
   std::vector<OpRec> H = gen(c.thorough ? 120 : 60), P = gen(c.thorough ? 90 : 60);
   if (P.size() < 8) for (int i = (int)P.size(); i < 8; i++) P.push_back(OpRec{(uint32_t)(i % 7), 1, 0, 0});
   // ---- node A
-  NodeX A(c); if (tight) A.s.ntmr = pool; A.build(g); A.w.finish(!prestart);   // mode reset-before-start: the history happens between CONodeInit and CONodeStart, the application then resets through the API and starts the node
+  NodeX A(c); if (tight) A.s.ntmr = pool; A.cont_probe = variant >= 2; A.build(g); A.w.finish(!prestart);   // mode reset-before-start: the history happens between CONodeInit and CONodeStart, the application then resets through the API and starts the node
   int apptmr = -1; if (with_app_timer) { A.s.api_begin(); apptmr = COTmrCreate(&A.s.node->Tmr, 3, 7, app_cb, 0); A.s.api_end("COTmrCreate"); }
   VLOG(c, "node %u: history of %zu ops, reset %s, probe of %zu ops%s", g.nodeid, H.size(), reset_node ? "node" : "communication", P.size(), with_app_timer ? ", one cyclic application timer" : "");
   bool changed_param = false, nonidle = false;
@@ -126,7 +126,7 @@ void case_impl(Ctx &c, int variant) {   // 0 random, 1 reset-from-callback, 2 wi
   long baseA = A.s.tick;
   std::vector<std::string> resetTrace = A.render(baseA);
   // the storage right after the reset is node B's initial storage
-  NodeX B(c); g_sim = &B.s; if (tight) B.s.ntmr = pool; B.build(g);
+  NodeX B(c); g_sim = &B.s; if (tight) B.s.ntmr = pool; B.cont_probe = variant >= 2; B.build(g);
   CHECK(c, A.s.blocks.size() == B.s.blocks.size(), "harness", "recipe not deterministic");
   for (size_t i = 0; i < A.s.blocks.size(); i++) { Block &a = A.s.blocks[i], &b = B.s.blocks[i]; CHECK(c, a.n == b.n && a.name == b.name, "harness", "recipe not deterministic"); if (a.storage) memcpy(b.p, a.p, a.n); }
   for (size_t i = 0; i < A.hc.size(); i++) { B.hc[i]->Time = A.hc[i]->Time; B.hc[i]->NodeId = A.hc[i]->NodeId; }
